@@ -14,21 +14,21 @@ Theorem C09_sum_mask_is_filter gk vals ng window mp want_mean m :
   filter_by m (rolling_sum_or_mean o gk vals ng window mp (Some m) want_mean)
   = rolling_sum_or_mean o (filter_by m gk) (filter_by m vals) ng window mp None want_mean.
 Proof.
-  exact (mask_is_filter _ _ _ _ _ _ gk vals ng m (fun s v => eq_refl)).
+  exact (mask_is_filter _ _ _ _ (sum_step o window (match mp with Some m0 => m0 | None => Z.of_nat window end) want_mean) _ gk vals ng m (fun s v => eq_refl)).
 Qed.
 Theorem C09_ext_mask_is_filter gk vals ng window mp want_max m :
   length gk = length m -> length vals = length m ->
   filter_by m (rolling_max_or_min o gk vals ng window mp (Some m) want_max)
   = rolling_max_or_min o (filter_by m gk) (filter_by m vals) ng window mp None want_max.
 Proof.
-  exact (mask_is_filter _ _ _ _ _ _ gk vals ng m (fun s v => eq_refl)).
+  exact (mask_is_filter _ _ _ _ (ext_step o window (match mp with Some m0 => m0 | None => Z.of_nat window end) want_max) _ gk vals ng m (fun s v => eq_refl)).
 Qed.
 Theorem C09_shift_mask_is_filter gk vals ng window want_shift m :
   length gk = length m -> length vals = length m ->
   filter_by m (rolling_shift_or_diff o gk vals ng window (Some m) want_shift)
   = rolling_shift_or_diff o (filter_by m gk) (filter_by m vals) ng window None want_shift.
 Proof.
-  exact (mask_is_filter _ _ _ _ _ _ gk vals ng m (fun s v => eq_refl)).
+  exact (mask_is_filter _ _ _ _ (shift_step o window want_shift) _ gk vals ng m (fun s v => eq_refl)).
 Qed.
 
 (* Rows with a null key change nothing and receive the null marker; groups are
